@@ -127,6 +127,14 @@ def tasks_c15(tier, seed):
     return ts
 
 
+def tasks_c09(tier, seed):
+    return seq("c09", tier, shards=8)
+
+
+def tasks_c19(tier, seed):
+    return seq("c19", tier, shards=16)
+
+
 PLANS = {
     "C01": {"tasks": tasks_c01, "level": "model_checking",
             "assumptions": ["scheduling points = sync/atomic/channel/timer operations of the rewritten packages + harness emits",
@@ -150,6 +158,10 @@ PLANS = {
             "assumptions": ["encoding/json generic decoding is the reference for JSON equality", "an explicit soft:false is the same RES value as an absent soft member"]},
     "C15": {"tasks": tasks_c15, "level": "model_checking",
             "assumptions": ["virtual clock: a timer may fire at any point relative to other threads", "NATS model: a message accepted before unsubscribe may arrive later or be dropped; nothing is placed on a channel after Unsubscribe returned"]},
+    "C19": {"tasks": tasks_c19, "level": "model_checking",
+            "assumptions": ["messages to the inbox are delivered in order and never dropped (a blocked delivery is a late one)", "virtual clock"]},
+    "C09": {"tasks": tasks_c09, "level": "model_checking",
+            "assumptions": ["the in-memory connection enforces the client's subject rule (no empty token)", "reference NATS matcher: * one token, > one or more trailing tokens"]},
     "C03": {"tasks": tasks_c03, "level": "model_checking",
             "assumptions": ["Shutdown is called from outside callbacks", "envnats models the connection"]},
 }
@@ -186,6 +198,12 @@ MANIFEST_TEXT = {
     "C15": {"engine": E1, "technique": "stateless model checking of the implementation with a virtual clock: preemption-bounded DFS over interleavings of query requests, expiry and callbacks",
             "level": "Every interleaving (up to the bound) of a query event with 0-2 requesters (valid, empty, missing and malformed queries), every callback behaviour, subscription failure, a concurrent callback of the same group and a chain of three events; the timer fires at any point; responses, nil-call count/order, group serialisation and released resources are checked on every execution.",
             "note": "The in-memory connection models acceptance/arrival of messages separately; inbox names are canonicalised."},
+    "C19": {"engine": E1, "technique": "explicit-state reference model of SendRequest/environment/clock + stateless exploration of the real SendRequest under the controlled scheduler for every environment script; observed outcomes must be model outcomes",
+            "level": "For every environment script up to the length bound and every connection fault, all interleavings (preemption bound 2) of the real SendRequest, the scripted environment and the virtual clock are executed; each observed (response class, extension callbacks) pair must be allowed by a nondeterministic reference model explored exhaustively, and the inbox subscription must be released on every path.",
+            "note": "Evidence reports model outcomes vs observed outcomes (both directions); the inbox is never overrun in the environment model."},
+    "C09": {"engine": "seq", "technique": "bounded-exhaustive enumeration of service configurations (name x ownership lists x handler kinds x queue group) against a reference NATS matcher over all request subjects",
+            "level": "Every configuration in the enumerated space is served on a connection that enforces subject validity; subscriptions, queue groups and the three system.reset payloads (start, ResetAll, reconnect path) are compared with the reference ownership for every request subject over names of <=3 tokens.",
+            "note": "No differential against a real nats-server (that would be sampling a network stack); the subject rule mirrors nats.go's badSubject."},
     "C17": {"engine": "seq", "technique": "bounded-exhaustive enumeration of pattern and name strings over the special-character alphabet against a tokenising reference",
             "level": "Every pattern string of <=5 (6 thorough) characters over 8 symbols against every name of <=5 characters over 5 symbols, all pattern/pattern cover pairs, parts, resource ids, method/event argument checks, tag maps and the id-transformer round trip.",
             "note": "Inputs the documentation leaves undefined are excluded and counted in the evidence."},
